@@ -14,7 +14,7 @@ PROPERTY = "C13"
 RULE = ("build: generated L_Data frames from telegram parts - destination kinds {group, broadcast, individual} x every TPCI class valid "
         "for the kind (sequence numbers 0..15) x payload pool (GroupValueWrite with every DPTArray length 0..260 so the APDU crosses 15/16 "
         "and 254/255, 6-bit values, reads/responses, a pool of management services) x all priorities x repeat/system-broadcast/ack/confirm "
-        "flags x hop counts 0..8,15 x message codes x additional info; each is serialised, compared with the model, parsed back and "
+        "flags x hop counts 0..9,15,16,32,255,-1 (given to the constructor or assigned to the public field afterwards) x message codes x additional info; each is serialised, compared with the model, parsed back and "
         "compared field-wise; reser: every frame accepted from C12's generator is re-serialised and compared with the input under the "
         "frame-type/reserved-bit mask; every parse is done twice with the first result's attributes overwritten in between (history independence, harness/lib/poison.py). non-trivial = distinct cases that serialise (or are rejected for length/hop count)")
 TRUSTED = c12.TRUSTED + ["for `build`/`reser` lines the payload's canonical encoding payload.to_knx() and calculated_length() are inputs of "
@@ -74,7 +74,7 @@ def generate(rng, tier):
             pay = ("pool", rng.randrange(len(pool)))
         yield {"kind": "build", "code": rng.choice([0x29, 0x11, 0x2E]), "info": bytes(rng.randrange(256) for _ in range(rng.choice([0, 0, 0, 2, 5]))).hex(),
                "prio": rng.randrange(4), "rep": rng.randrange(2), "sb": rng.randrange(2), "ack": rng.randrange(2), "cerr": rng.randrange(2),
-               "hop": rng.choice([0, 1, 5, 6, 7, 7, 6, 6, 8, 15]), "src": rng.choice([0, 0x1101, 0xFFFF, rng.randrange(65536)]),
+               "hop": rng.choice([0, 1, 5, 6, 7, 7, 6, 6, 8, 15, 9, 16, 32, 255, -1]), "via": rng.choice(["ctor", "assign"]), "src": rng.choice([0, 0x1101, 0xFFFF, rng.randrange(65536)]),
                "g": g, "dst": dst, "cls": cls, "seq": seq, "pay": pay}
     # re-serialisation: EVERY 16-bit control field on a fixed group frame and a fixed control frame (complete domain)
     for c in range(65536):
@@ -144,8 +144,21 @@ def run_impl(case):
     t = getattr(tpci, case["cls"])
     tp = t(sequence_number=case["seq"]) if case["seq"] is not None else t()
     dst = GroupAddress(case["dst"]) if case["g"] == "g" else IndividualAddress(case["dst"])
-    flags = CEMIFlags(priority=CEMIPriority(case["prio"]), repeat_on_error=bool(case["rep"]), system_broadcast=bool(case["sb"]),
-                      acknowledge_request=bool(case["ack"]), confirm_error=bool(case["cerr"]), hop_count=case["hop"])
+    refused_at_construction = False
+    try:
+        if case.get("via") == "assign":
+            # the flags object is public and mutable (a router lowers the hop count of a received frame): build it with
+            # defaults, then assign every field - validation that lives only in the constructor is bypassed this way
+            flags = CEMIFlags()
+            flags.priority, flags.repeat_on_error, flags.system_broadcast = CEMIPriority(case["prio"]), bool(case["rep"]), bool(case["sb"])
+            flags.acknowledge_request, flags.confirm_error, flags.hop_count = bool(case["ack"]), bool(case["cerr"]), case["hop"]
+        else:
+            flags = CEMIFlags(priority=CEMIPriority(case["prio"]), repeat_on_error=bool(case["rep"]), system_broadcast=bool(case["sb"]),
+                              acknowledge_request=bool(case["ack"]), confirm_error=bool(case["cerr"]), hop_count=case["hop"])
+    except ConversionError:
+        # refusing the out-of-range value where the flags are created is a rejection too
+        refused_at_construction = True
+        flags = CEMIFlags()
     fr = CEMIFrame(code=CEMIMessageCode(case["code"]), info=CEMIInfo(bytes.fromhex(case["info"])),
                    data=CEMILData(flags=flags, src_addr=IndividualAddress(case["src"]), dst_addr=dst, tpci=tp, payload=pay))
     encodable = True
@@ -164,6 +177,8 @@ def run_impl(case):
         res = "conv"
     except Exception as e:  # noqa: BLE001
         res = f"other:{type(e).__name__}"
+    if refused_at_construction:
+        res = "conv"
     case["_fr"], case["_npdu"] = fr, alen
     # full model: the payload goes to Lean as a service object (class + field values); encoding, calculated length and the
     # frame are all computed by the cEMI + APCI models
@@ -178,6 +193,8 @@ def run_impl(case):
     else:   # a field type the APCI harness library cannot render: fall back to the implementation-supplied encoding
         line = (f"cemi build {case['code']} {case['info'] or '-'} {case['prio']} {case['rep']} {case['sb']} {case['ack']} {case['cerr']} "
                 f"{case['hop']} 0 {case['src']} {case['g']} {case['dst']} {case['cls']} {case['seq'] or 0} {ap} {alen}")
+    if case["hop"] < 0:
+        line = None     # the model's hop count is a natural number; the oracle still demands the rejection
     return {"out": res, "line": line}
 
 
